@@ -35,6 +35,12 @@ func vrvIfDescr(name, descr string) *sdcio_schema.SdcioModel_Interface {
 	return &sdcio_schema.SdcioModel_Interface{Name: ygot.String(name), Description: ygot.String(descr)}
 }
 
+func vrvBgp(as uint32) map[string]*sdcio_schema.SdcioModel_NetworkInstance {
+	return map[string]*sdcio_schema.SdcioModel_NetworkInstance{"default": {Name: ygot.String("default"),
+		Protocol: &sdcio_schema.SdcioModel_NetworkInstance_Protocol{Bgp: &sdcio_schema.SdcioModel_NetworkInstance_Protocol_Bgp{
+			AdminState: sdcio_schema.SdcioModelNi_AdminState_disable, AutonomousSystem: ygot.Uint32(as), RouterId: ygot.String("1.1.1.1")}}}}
+}
+
 func vrvRef(name, ifname string, sub uint32) *sdcio_schema.SdcioModel_NetworkInstance_Interface {
 	return &sdcio_schema.SdcioModel_NetworkInstance_Interface{Name: ygot.String(name),
 		InterfaceRef: &sdcio_schema.SdcioModel_NetworkInstance_Interface_InterfaceRef{Interface: ygot.String(ifname), Subinterface: ygot.Uint32(sub)}}
@@ -74,6 +80,9 @@ func TestVerifReplayValidation(t *testing.T) {
 		{"string within its length and pattern", &sdcio_schema.Device{Patterntest: ygot.String("hallo 12")}, true},
 		{"string shorter than its length range", &sdcio_schema.Device{Patterntest: ygot.String("hallo")}, false},
 		{"string outside its pattern", &sdcio_schema.Device{Patterntest: ygot.String("servus 12")}, false},
+		// a range given by a typedef (as-number: uint32 1..4294967295) is a range
+		{"range of a typedef: autonomous-system 65000", &sdcio_schema.Device{NetworkInstance: vrvBgp(65000)}, true},
+		{"range of a typedef: autonomous-system 0", &sdcio_schema.Device{NetworkInstance: vrvBgp(0)}, false},
 		// the length statement counts characters, not the bytes of the encoding (RFC 7950, 9.4.4)
 		{"string length: 9 characters in 12 bytes, allowed are 7..10", &sdcio_schema.Device{Patterntest: ygot.String("hallo äöü")}, true},
 		{"string length: 200 characters in 400 bytes, allowed are 1..255", &sdcio_schema.Device{Interface: map[string]*sdcio_schema.SdcioModel_Interface{"ethernet-1/1": vrvIfDescr("ethernet-1/1", strings.Repeat("ä", 200))}}, true},
@@ -147,6 +156,9 @@ func TestVerifReplayValidation(t *testing.T) {
 				fns := []string{fn}
 				if strings.HasPrefix(sc.name, "string length") {
 					fns = append(fns, "(*tree.sharedEntryAttributes).validateLength")
+				}
+				if strings.HasPrefix(sc.name, "range of") {
+					fns = append(fns, "(*tree.sharedEntryAttributes).validateRange")
 				}
 				for _, f := range fns {
 					fmt.Printf("REPLAY-FAIL fn=%s clause=verdict_is_validity_of_the_result input=%s why=%d error(s) %v, the configuration is valid=%v\n", f, in, len(res), res, sc.valid)
